@@ -6,9 +6,10 @@ From PV Require Gen.ShiftsGen.
 Import ListNotations.
 Local Open Scope N_scope.
 
-(* A change of the C++ function breaks exactly this obligation. *)
-Lemma gen_matches : ShiftsGen.calculate_shifts = ShiftsImpl.calculate_shifts.
-Proof. reflexivity. Qed.
+(* A change of the C++ function breaks exactly this obligation (closed constructor terms:
+   vm_compute normalises the abbreviations of the reviewed copy, the comparison is syntactic). *)
+Lemma gen_matches : ShiftsGen.prog = ShiftsImpl.reviewed_prog.
+Proof. vm_compute. reflexivity. Qed.
 
 Definition smear (x : N) : N :=
   let b := N.lor x (N.shiftr x 32) in
@@ -25,11 +26,18 @@ Definition popc (b : N) : N :=
   let b := (N.land b 0x0000ffff0000ffff + N.land (N.shiftr b 16) 0x0000ffff0000ffff) mod W64 in
   (N.land b 0x00000000ffffffff + N.land (N.shiftr b 32) 0x00000000ffffffff) mod W64.
 
+(* the interpreter run on the reviewed program, unfolded once and for all *)
 Lemma calculate_shifts_unfold x : calculate_shifts x =
-  if x =? 0 then 64 else
-  let b := popc (smear x) in
-  (b + W64 - (if (N.shiftl 1 ((b + W64 - 1) mod W64)) mod W64 =? x then 1 else 0)) mod W64.
-Proof. unfold calculate_shifts, popc, smear. cbv zeta. reflexivity. Qed.
+  if b2n (x =? 0) =? 0 then
+    let b := popc (smear x) in
+    (b + W64 - b2n ((N.shiftl 1 ((b + W64 - 1) mod W64)) mod W64 =? x)) mod W64
+  else 64.
+Proof.
+  unfold popc, smear. cbv zeta.
+  cbv [calculate_shifts run reviewed_prog eval_stmt eval_expr eval_binop upd Nat.eqb
+       X B sb smear_step count_step].
+  reflexivity.
+Qed.
 
 (* bit inclusion *)
 Definition sub (a b : N) : Prop := forall i, N.testbit a i = true -> N.testbit b i = true.
@@ -87,7 +95,7 @@ Theorem calculate_shifts_spec x : 0 < x < W64 -> calculate_shifts x = ceil_log2 
 Proof.
   intros Hx. rewrite calculate_shifts_unfold. unfold ceil_log2.
   destruct (x =? 0) eqn:E; [apply N.eqb_eq in E; lia|].
-  cbv zeta. rewrite smear_spec by auto.
+  cbn [b2n]. change (0 =? 0) with true. cbv iota zeta. rewrite smear_spec by auto.
   pose proof (proj1 (forallb_forall _ _) sweep _ (log2_in_ks x Hx)) as Hs.
   rewrite !andb_true_iff, !N.eqb_eq in Hs. destruct Hs as [_ H3]. rewrite H3.
   pose proof (log2_lt_64 x Hx) as HL.
@@ -101,7 +109,7 @@ Proof.
   { rewrite HW. apply N.pow_lt_mono_r; lia. }
   rewrite (N.mod_small (2 ^ N.log2 x)) by exact Hp.
   assert (H64 : 64 < W64) by (vm_compute; reflexivity).
-  destruct (2 ^ N.log2 x =? x).
+  destruct (2 ^ N.log2 x =? x); cbn [b2n].
   - replace (N.log2 x + 1 + W64 - 1) with (N.log2 x + 1 * W64) by lia.
     rewrite N.mod_add by discriminate. apply N.mod_small. lia.
   - replace (N.log2 x + 1 + W64 - 0) with (N.log2 x + 1 + 1 * W64) by lia.
